@@ -65,14 +65,14 @@ fn scripted(threads: usize, lel: bool) -> String {
         if PHASE.load(AO::SeqCst) == 0 { return; }
         match (w, ev) {
             // worker 1 (and any further worker) does nothing before worker 0 stands at the enqueue_cutset of its second node
-            (Some(i), Event::BeforeLock("get_workload")) if i >= 1 && PHASE.load(AO::SeqCst) < 2 => wait_phase(2),
+            (Some(1), Event::BeforeLock("get_workload")) if PHASE.load(AO::SeqCst) < 2 => wait_phase(2),
+            // further workers stay out of the way during the whole scripted part
+            (Some(i), Event::BeforeLock("get_workload")) if i >= 2 && PHASE.load(AO::SeqCst) < 4 => wait_phase(4),
             (Some(0), Event::BeforeLock("enqueue_cutset")) => {
                 if W0_ENQ.fetch_add(1, AO::SeqCst) + 1 == 2 && PHASE.load(AO::SeqCst) == 1 { PHASE.store(2, AO::SeqCst); wait_phase(3); }
             }
             // worker 1 has compiled A = (0, depth 2): held before maybe_update_best; worker 0 goes on
             (Some(1), Event::BeforeLock("update_best")) if PHASE.load(AO::SeqCst) == 2 && CUR.with(|c| c.get() == (0, 2)) => { PHASE.store(3, AO::SeqCst); wait_phase(4); }
-            // further workers stay out of the way during worker 0's last block
-            (Some(i), Event::BeforeLock("get_workload")) if i >= 2 && PHASE.load(AO::SeqCst) == 3 => wait_phase(4),
             (Some(0), Event::AfterUnlock("abort_search")) if PHASE.load(AO::SeqCst) == 3 => PHASE.store(4, AO::SeqCst),
             _ => {}
         }
